@@ -2,6 +2,7 @@ import EmmyVerif.Model.Ty
 import EmmyVerif.Model.TyCheck
 import EmmyVerif.Model.TyText
 import EmmyVerif.Model.TyGeneric
+import EmmyVerif.Model.TyWalk
 import EmmyVerif.Drv.Util
 /-! Driver ops of the `Ty` family. Types and environments travel as S-expressions (hex-wrapped):
 
@@ -250,6 +251,17 @@ def handle (op : String) (args : List String) : Option String :=
     let as ← readGList as
     let r ← readG r
     pure s!"ok {showG (inferCall ps as r)}"
+  | "removenil", [e, t] => do
+    -- `TypeOps::Remove.apply(db, t, nil)`
+    let e ← readEnv e
+    let t ← readTy t
+    pure (match removeNil e maxWalkDepth t with
+      | some r => s!"ok {showTy r}"
+      | none => if t = Ty.tNil then s!"ok {showTy Ty.tNever}" else s!"ok {showTy t}")
+  | "noncallable", [e, t] => do
+    let e ← readEnv e
+    let t ← readTy t
+    pure s!"ok {hasNonCallable e maxWalkDepth t}"
   | "echo", [t] => do
     let t ← readTy t
     pure s!"ok {showTy t}"
